@@ -374,13 +374,102 @@ fn execute(job: &TJob, ctx: Arc<Mutex<Ctx>>, on_deadlock: sched::DeadlockHandler
     }
 }
 
-pub struct C02Prop;
+pub struct TProp {
+    pub id: &'static str,
+    /// Oracle clause prefixes this property owns in the thread harness.
+    pub owned: Vec<&'static str>,
+    pub jobs: fn(Tier) -> Vec<TJob>,
+    pub rule: &'static str,
+}
+
+pub fn c02() -> TProp {
+    TProp {
+        id: "C02",
+        owned: vec!["R.", "H.", "K.", "X.", "W.", "P."],
+        jobs,
+        rule: "",
+    }
+}
+
+/// C18 thread part: the pin / unpin / evict races under LRU.
+pub fn c18_t() -> TProp {
+    TProp {
+        id: "C18",
+        owned: vec!["P.", "H.", "X."],
+        jobs: jobs_c18,
+        rule: "Engine T (thread part of C18): two- and three-thread programs of lookups (drop / hold), touch, handle drops and evicting inserts / evict_all on one LRU shard (pool ratios 0.9 and 0.5), every interleaving with at most 2 preemptions (3 in the thorough tier for two-thread programs); a listener flags any eviction of an entry while a looked-up handle to it is held; held handles are re-read at the end.",
+    }
+}
+
+/// C16 thread part: no combination of concurrent operations deadlocks.
+pub fn c16_t() -> TProp {
+    TProp {
+        id: "C16",
+        owned: vec!["K.", "X."],
+        jobs: jobs_c16,
+        rule: "Engine T (thread part of C16): the two- and three-thread programs of C02 over all five algorithms with deadlock detection (no enabled thread while some thread is unfinished) and self-deadlock detection in the lock facade, every interleaving with at most 2 preemptions.",
+    }
+}
+
+fn jobs_c18(tier: Tier) -> Vec<TJob> {
+    let a = 4u64;
+    let mut progs: Vec<(Vec<TOp>, Vec<Vec<TOp>>)> = vec![];
+    let lookups = [TOp::Get { k: a, hold: false }, TOp::Get { k: a, hold: true }, TOp::Touch { k: a }];
+    let evictors: Vec<Vec<TOp>> = vec![vec![TOp::Ins { k: 8 }, TOp::Ins { k: 12 }], vec![TOp::EvictAll], vec![TOp::Ins { k: a }, TOp::Ins { k: 8 }]];
+    for pro in [vec![TOp::Ins { k: a }], vec![], vec![TOp::Ins { k: a }, TOp::Get { k: a, hold: true }]] {
+        for x in lookups.iter() {
+            progs.push((pro.clone(), vec![vec![*x, TOp::EvictAll], vec![TOp::Ins { k: a }]]));
+            for ev in evictors.iter() {
+                progs.push((pro.clone(), vec![vec![*x], ev.clone()]));
+                for y in lookups.iter() {
+                    progs.push((pro.clone(), vec![vec![*x], vec![*y], ev.clone()]));
+                }
+            }
+        }
+    }
+    let mut v = vec![];
+    let ratios: Vec<f64> = if tier == Tier::Quick { vec![0.9] } else { vec![0.9, 0.5] };
+    for ratio in ratios {
+        for (pro, threads) in progs.iter() {
+            let three = threads.len() >= 3;
+            v.push(TJob {
+                algo: Algo::Lru { ratio },
+                shards: 1,
+                capacity: 2,
+                prologue: pro.clone(),
+                threads: threads.clone(),
+                bound: if tier == Tier::Thorough && !three { 3 } else { 2 },
+            });
+        }
+    }
+    v
+}
+
+fn jobs_c16(tier: Tier) -> Vec<TJob> {
+    let mut v = vec![];
+    for algo in Algo::defaults() {
+        for (pro, threads) in programs(Tier::Quick) {
+            if tier == Tier::Quick && threads.iter().map(|t| t.len()).sum::<usize>() > 2 && threads.len() < 3 {
+                continue;
+            }
+            v.push(TJob {
+                algo,
+                shards: 2,
+                capacity: 2,
+                prologue: pro,
+                threads,
+                bound: 2,
+            });
+        }
+    }
+    v
+}
 
 fn sig(clause: &str, job: &TJob) -> String {
     format!("{clause}|{}|shards{}", job.algo.short(), job.shards)
 }
 
-fn explore_job(job: &TJob, res: &mut ShardResult, deadline: Instant, shard_out: &Arc<Mutex<Option<std::path::PathBuf>>>) -> bool {
+fn explore_job(prop: &TProp, job: &TJob, res: &mut ShardResult, deadline: Instant, shard_out: &Arc<Mutex<Option<std::path::PathBuf>>>) -> bool {
     let limits = ExploreLimits {
         bound: job.bound,
         max_execs: 200_000,
@@ -400,7 +489,7 @@ fn explore_job(job: &TJob, res: &mut ShardResult, deadline: Instant, shard_out: 
         let ctx = Arc::new(Mutex::new(Ctx::new(prefix)));
         // On a deadlock the blocked threads cannot be unwound: report through the journal and leave.
         let jv = Violation {
-            property: "C02".into(),
+            property: prop.id.into(),
             clause: "K.deadlock".into(),
             signature: sig("K.deadlock", job),
             message: String::new(),
@@ -465,10 +554,14 @@ fn explore_job(job: &TJob, res: &mut ShardResult, deadline: Instant, shard_out: 
         }
         let mut stop = false;
         for (clause, msg) in out.complaints {
+            if !prop.owned.iter().any(|o| clause.starts_with(o)) {
+                res.add("foreign_clause_complaints", 1);
+                continue;
+            }
             let signature = sig(&clause, job);
             if !res.violations.iter().any(|v| v.signature == signature) {
                 res.violations.push(Violation {
-                    property: "C02".into(),
+                    property: prop.id.into(),
                     clause: clause.clone(),
                     signature,
                     message: format!("{msg}  [prologue {:?}; threads {:?}; {} shards {} capacity {}; {} preemptions]", job.prologue, job.threads, job.algo.name(), job.shards, job.capacity, cost),
@@ -584,14 +677,14 @@ fn jobs(tier: Tier) -> Vec<TJob> {
     v
 }
 
-impl Prop for C02Prop {
+impl Prop for TProp {
     fn id(&self) -> &'static str {
-        "C02"
+        self.id
     }
 
     fn worker(&self, tier: Tier, shard: (usize, usize), deadline: Instant) -> ShardResult {
         let mut res = ShardResult::default();
-        let js = jobs(tier);
+        let js = (self.jobs)(tier);
         if shard.0 == 0 {
             res.add("jobs_total", js.len() as u64);
         }
@@ -609,7 +702,7 @@ impl Prop for C02Prop {
                 res.sample(json!({"engine": "T", "job": job}), 2);
             }
             res.add("programs", 1);
-            if !explore_job(job, &mut res, deadline, &so) {
+            if !explore_job(self, job, &mut res, deadline, &so) {
                 break;
             }
         }
@@ -620,9 +713,11 @@ impl Prop for C02Prop {
         let job: TJob = serde_json::from_value(witness["job"].clone()).expect("job");
         let choices: Vec<u32> = serde_json::from_value(witness["choices"].clone()).expect("choices");
         let ctx = Arc::new(Mutex::new(Ctx::new(choices).with_trace(verbose)));
+        let pid = self.id;
+        let dsig = sig("K.deadlock", &job);
         let handler: sched::DeadlockHandler = Box::new(move |desc: &str| {
-            println!("REPLAY property=C02 clause=K.deadlock signature=K.deadlock :: threads deadlocked: {desc}");
-            println!("VIOLATION property=C02 replay=<this file>");
+            println!("REPLAY property={pid} clause=K.deadlock signature={dsig} :: threads deadlocked: {desc}");
+            println!("VIOLATION property={pid} replay=<this file>");
             std::process::exit(1);
         });
         let out = execute(&job, ctx.clone(), handler);
@@ -639,10 +734,13 @@ impl Prop for C02Prop {
         }
         let mut vs = vec![];
         for (clause, msg) in out.complaints {
+            if !self.owned.iter().any(|o| clause.starts_with(o)) {
+                continue;
+            }
             let signature = sig(&clause, &job);
             if !vs.iter().any(|v: &Violation| v.signature == signature) {
                 vs.push(Violation {
-                    property: "C02".into(),
+                    property: self.id.into(),
                     clause,
                     signature,
                     message: msg,
@@ -654,6 +752,9 @@ impl Prop for C02Prop {
     }
 
     fn rule(&self) -> String {
+        if !self.rule.is_empty() {
+            return self.rule.to_string();
+        }
         "Engine T: the real foyer-memory cache with its parking_lot locks replaced by a facade whose acquire/release are scheduling points of a cooperative scheduler (one OS thread runs at a time). Programs: all unordered pairs of single operations over {insert, remove, get, get-and-hold, touch on a contended key; insert of a same-shard and an other-shard key, clear, evict_all, contains} for two threads, two-operation vs one-operation programs on the contended key, and three-thread programs (lookup / lookup-and-hold / evicting inserts), from three initial states (empty, key present, key present with a looked-up handle held by the main thread); LRU, S3-FIFO, FIFO (quick) / all five (thorough); shards 1 (quick) / 1,2,4 (thorough), capacity small enough that eviction happens. Every interleaving with at most 2 (quick) / 3 (thorough, 2-thread) preemptions is executed; switches at blocking points are free. Oracle: (statement form) a lookup or remove returns nothing or the value of an insert of that key not superseded by an insert/remove/clear that completed before the lookup started; held handles re-read unchanged; under LRU no looked-up, still-held entry is evicted; no deadlock (no enabled thread) and no panic; usage() == entries() at the end. distinct = distinct vector of per-operation results.".into()
     }
 
@@ -666,7 +767,7 @@ impl Prop for C02Prop {
     }
 
     fn bounds(&self, tier: Tier) -> Value {
-        let js = jobs(tier);
+        let js = (self.jobs)(tier);
         json!({"thread_programs": js.len(), "max_threads": 3, "preemption_bound": js.iter().map(|j| j.bound).max()})
     }
 
